@@ -22,7 +22,7 @@ LEVEL_TEXT = ("Theorems for all regions / parameters / solver outputs about (a) 
               "unsatisfied regions are never written, applied separation >= distance - 2 tol. "
               "Tie: with the guarded hook in /repo every region the real library forms is dumped (ordered segments, variables, the "
               "constraints of every attempt, solver results, write-back) and must equal the model's output on the same ordered "
-              "segments exactly (Rat, doubles rounded as IEEE), on every run and every generator class; 13 scalar kernels of "
+              "segments exactly (Rat, doubles rounded as IEEE), on every run and every generator class; 14 scalar kernels of "
               "NudgingShiftSegment and the id / weight constants are regenerated from orthogonal.cpp by cpp2lean on every run and "
               "proved equal to the hand models (Props/C10Tie). The routes the library returns are checked by Lean checkers with "
               "soundness theorems (shared collinear stretch, distance of parallel overlapping segments, checkpoints).")
@@ -32,7 +32,7 @@ LEVEL_NOTE = ("Modelled per region and tied through the hook: variable creation,
               "segments exist and their channel limits (buildOrthogonalNudgingSegments / buildOrthogonalChannelInfo), the point "
               "orders (PtOrderMap) behind CmpLineOrder - of region formation and ordering only necessary conditions are checked "
               "on the dump (no overlap across regions of one pass; adjacent segments respect the position / fixedOrder / order rules "
-              "of CmpLineOrder); shouldAlignWith, CmpLineOrder::operator() and updatePositionsFromSolver are hand models (not "
+              "of CmpLineOrder); CmpLineOrder::operator() and updatePositionsFromSolver are hand models (not "
               "regenerated). The hypothesis `nextSep o s <= s` of the retry theorems is proved for exact arithmetic "
               "(reduction_nonincreasing_exact) and observed for doubles (the dumped distances equal the model's IEEE evaluation). "
               "Without the hook in the tree under test the harness prints `hook 0` and only the route-level checks run. "
@@ -78,7 +78,7 @@ def _known_ids():
 
 def regenerate(ROOT, REPO):
     """The scalar kernels of NudgingShiftSegment (lowPoint/highPoint, zigzag, immovable, lowC/highC, order, fixedOrder,
-    overlapsWith, canAlignWith, hasCheckpointAtPosition, createSolverVariable) and the id / weight / CHANNEL_MAX constants are
+    overlapsWith, canAlignWith, shouldAlignWith, hasCheckpointAtPosition, createSolverVariable) and the id / weight / CHANNEL_MAX constants are
     regenerated from orthogonal.cpp by cpp2lean on every run (Gen/NudgeK.lean) and proved equal to the hand models of
     Model/NudgeRegion.lean in Props/C10Tie.lean"""
     import sys
